@@ -167,8 +167,10 @@ def merge_json(results, js):
         r['time_s'] = round(j.get('duration_ms', 0) / 1000.0, 2)
         st = j.get('status')
         r['status'] = {'Success': 'SUCCESSFUL', 'Failure': 'FAILED'}.get(st, r.get('status') if st is None else st.upper())
+        if r['status'] == 'FAILED' and not checks:
+            r['status'] = 'TIMEOUT'      # CBMC killed by --harness-timeout (or crashed): no check results
         if name in cb:
-            stt = cb[name].get('cbmc_stats', {})
+            stt = cb[name].get('cbmc_stats') or {}
             r['solver_s'] = stt.get('runtime_solver_s')
             r['symex_s'] = stt.get('runtime_symex_s')
-            r['solver'] = cb[name].get('configuration', {}).get('solver')
+            r['solver'] = (cb[name].get('configuration') or {}).get('solver')
